@@ -309,7 +309,8 @@ pub fn run(run: &Run) {
     // the property restricts names to letters, digits, '_' and inner '-' (the grammar's atom_char);
     // the thorough name alphabet also has an emoji name, which is outside C11's quantifier
     let before = vals.len();
-    vals.retain(|v| !v.term.any(&|n| n.name.chars().any(|c| !(c.is_alphanumeric() || c == '_' || c == '-'))));
+    let name_class = regex::Regex::new(r"^[\p{L}\p{N}_-]*$").unwrap();
+    vals.retain(|v| !v.term.any(&|n| !name_class.is_match(&n.name)));
     run.count("enum_values_outside_the_grammar_name_class_skipped", (before - vals.len()) as u64);
     run.count("enum_values", vals.len() as u64);
     vals.par_iter().for_each(|v| {
@@ -327,7 +328,10 @@ pub fn run(run: &Run) {
     lv.extend(lexu::u_sent(&f));
     fn lex_names_ok(t: &LTerm) -> bool {
         match t {
-            LTerm::Atom { name, .. } => name.chars().all(|c| c.is_alphanumeric() || c == '_' || c == '-'),
+            LTerm::Atom { name, .. } => {
+                static RE: std::sync::OnceLock<regex::Regex> = std::sync::OnceLock::new();
+                RE.get_or_init(|| regex::Regex::new(r"^[\p{L}\p{N}_-]*$").unwrap()).is_match(name)
+            }
             LTerm::Compound { terms, .. } | LTerm::Set { terms, .. } => terms.iter().all(lex_names_ok),
             LTerm::Statement { subject, predicate, .. } => lex_names_ok(subject) && lex_names_ok(predicate),
         }
